@@ -141,6 +141,14 @@ def param_mutators(prog):
 
 
 def run(ctx):
+    _run(ctx)
+    r9 = ctx.rule('R9', 'the upstream tasks whose data a task sees are all '
+                  'the tasks recorded as having triggered it', 'DT + AGREE')
+    from mstatic.rules import cmdcalc
+    cmdcalc.triggered_by_ids(ctx, r9)
+
+
+def _run(ctx):
     prog = ctx.prog
 
     # ---- R1 evaluation is pure ---------------------------------------------
